@@ -925,3 +925,84 @@ func failsOnlyAsGuard(fn *ssa.Function) bool {
 	}
 	return ok
 }
+
+// R-replay-closes-per-file: WAL replay opens one reader per log file. Readers that are collected and closed when Replay
+// returns hold one descriptor (and one read buffer) per file all at once; the number of WAL files is not bounded by
+// anything the flusher does (deletes never rotate the memstore, the appender rotates by size on its own), so a log
+// with more files than the descriptor limit can be written but never replayed: every Open fails from then on.
+func ruleReplayClosesPerFile(r *Report) {
+	const rule = "replay-closes-per-file"
+	r.Rule(rule, 1, "wal.Replayer.Replay closes the reader of each WAL file before it opens the next one (a Close of the reader inside the per-file loop, directly or through a per-file function with a deferred Close), instead of collecting the readers and closing them when Replay returns")
+	p := r.P
+	fn := r.NeedFunc(rule, "wal.Replayer.Replay")
+	if fn == nil {
+		return
+	}
+	key := rule + "/wal.Replayer.Replay"
+	// the reader creation: a dynamic call of the reader factory (field readerFactory) — in Replay itself or in a helper
+	inLoop := func(s Site) bool {
+		for _, su := range s.Block.Succs {
+			if reachFrom(su, nil)[s.Block] {
+				return true
+			}
+		}
+		return reachFrom(s.Block, nil)[s.Block] && len(s.Block.Succs) > 0 && func() bool {
+			for _, su := range s.Block.Succs {
+				if reachFrom(su, nil)[s.Block] {
+					return true
+				}
+			}
+			return false
+		}()
+	}
+	isFactoryCall := func(c *ssa.Call) bool {
+		if c.Call.IsInvoke() || c.Call.StaticCallee() != nil {
+			return false
+		}
+		_, f, _, ok := loadOfField(c.Call.Value)
+		return ok && f == "readerFactory"
+	}
+	var create *Site
+	var holder *ssa.Function
+	for _, g := range moduleReach(p, []*ssa.Function{fn}) {
+		eachInstr(g, func(s Site) {
+			if c, ok := s.Instr.(*ssa.Call); ok && isFactoryCall(c) {
+				ss := s
+				create, holder = &ss, g
+			}
+		})
+	}
+	if create == nil {
+		r.Missing(rule, key, "no reader factory call found in Replay")
+		return
+	}
+	// is there a Close of the created reader that belongs to the same iteration?
+	closed := false
+	for _, f := range closuresOf(holder) {
+		eachInstr(f, func(s Site) {
+			c, ok := s.Instr.(ssa.CallInstruction)
+			if !ok || !c.Common().IsInvoke() || c.Common().Method.Name() != "Close" {
+				return
+			}
+			fromCreate := valueDependsOn(c.Common().Value, func(x ssa.Value) bool {
+				ex, isEx := x.(*ssa.Extract)
+				return isEx && ex.Tuple == create.Instr.(ssa.Value) && ex.Index == 0
+			})
+			if !fromCreate {
+				return
+			}
+			if holder != fn {
+				closed = true // a per-file helper closes what it opened (directly or deferred)
+				return
+			}
+			if f == fn && inLoop(s) {
+				closed = true
+			}
+		})
+	}
+	if closed {
+		r.OK(rule, key, create.Pos(), "each file's reader is closed within its own iteration")
+	} else {
+		r.Bad(rule, key, create.Pos(), "the readers of all WAL files are kept open until Replay returns (collected in a slice, closed in a deferred loop): a log with more files than the descriptor limit cannot be replayed and every later Open fails with \"too many open files\" (MemstoreSizeBytes(1), one Put and 4496 Deletes leave 1499 WAL files; RLIMIT_NOFILE 1024)")
+	}
+}
